@@ -358,10 +358,24 @@ reg('get_completed_entangled_subspace',
     lambda nq, a, s: nq.matrix_space.get_completed_entangled_subspace(tuple(a['dim_tuple']), 'quant-ph/0405077', seed=s),
     None)
 
+def _m_mps_dicke(nq, a, v):
+    import math
+    if not (isinstance(v, tuple) and len(v) == 4):
+        return 'expected (mps_alpha, klist, matA, matB)'
+    mps_alpha, klist, matA, matB = v
+    nd = math.comb(a['num_qudit'] + a['dim'] - 1, a['dim'] - 1)
+    if klist.shape != (nd, a['dim']) or matA.shape[1] != nd or matB.shape[0] != nd or mps_alpha.shape[1] != a['dim'] or mps_alpha.shape[0] != matA.shape[0]:
+        return f'shapes {mps_alpha.shape},{klist.shape},{matA.shape},{matB.shape} do not fit dim={a["dim"]}, num_qudit={a["num_qudit"]}'
+    if mps_alpha.shape[0] < nd * a['num_more_space'] - 1 and mps_alpha.shape[0] < nd + 3:
+        return f'{mps_alpha.shape[0]} MPS vectors for num_more_space={a["num_more_space"]} and {nd} Dicke states'
+    if np.abs(matB @ matA - np.eye(nd)).max() > 1e-6:
+        return 'matB is not a left inverse of matA'
+
+
 reg('get_mps_dicke_transform_matrix',
-    lambda r: {'dim': r.randint(2, 3), 'num_qudit': r.randint(2, 3)},
-    lambda nq, a, s: nq.entangle.pureb_quantum.get_mps_dicke_transform_matrix(a['dim'], a['num_qudit'], seed=s),
-    None)
+    lambda r: {'dim': r.randint(2, 3), 'num_qudit': r.randint(2, 3), 'num_more_space': r.choice([1.05, 1.05, 1.5, 2.0, 3.0])},
+    lambda nq, a, s: nq.entangle.pureb_quantum.get_mps_dicke_transform_matrix(a['dim'], a['num_qudit'], num_more_space=a['num_more_space'], seed=s),
+    _m_mps_dicke, weight=1.5, branch=lambda a: f"more_space={'default' if a['num_more_space'] == 1.05 else 'other'}")
 
 
 # ------------------------------------------------------------------------------------------------ heavy: minimizers, solvers
@@ -441,14 +455,14 @@ def _c_adam(nq, a, s, ctx=None):
         model = make_model(nq, a)
         if ctx is not None:
             ctx[key] = model
-    loss, hist = nq.optimize.minimize_adam(model, a['num_step'], theta0=a['theta0'], optim_args=tuple(a['optim_args']), seed=s, tqdm_update_freq=0, tag_return_history=True)
+    loss, hist = nq.optimize.minimize_adam(model, a['num_step'], theta0=_tup(a['theta0']), optim_args=tuple(a['optim_args']), seed=s, tqdm_update_freq=0, tag_return_history=True)
     return {'loss': float(loss), 'hist': np.asarray(hist), 'params_after': nq.optimize.get_model_flat_parameter(model)}
 
 
 reg('optimize.minimize_adam',
     lambda r: {'model': r.choice(['quartic', 'sphere']), 'n': r.randint(2, 4), 'mseed': r.getrandbits(16), 'num_step': r.randint(3, 15),
-               'theta0': r.choice(['uniform', 'normal']), 'optim_args': r.choice([['adam', 0.05], ['sgd', 0.01], ['adam', 0.05, 0.01]]), 'reuse': r.random() < 0.6},
-    _c_adam, None, weight=1, heavy=True, branch=lambda a: f"{a['optim_args'][0]},{a['theta0']}")
+               'theta0': r.choice(['uniform', 'normal', None, ['uniform', -2, 2], ['normal', 0, 0.5]]), 'optim_args': r.choice([['adam', 0.05], ['sgd', 0.01], ['adam', 0.05, 0.01]]), 'reuse': r.random() < 0.6},
+    _c_adam, None, weight=1.3, heavy=True, branch=lambda a: f"{a['optim_args'][0]},{a['theta0'] if not isinstance(a['theta0'], list) else a['theta0'][0] + '-tuple'}")
 
 
 def _target_dm(nq, a):
@@ -550,6 +564,15 @@ def _g_check_ud(r):
 
 
 reg('unique_determine.check_UD', _g_check_ud, _c_check_ud, None, weight=0.6, heavy=True, branch=lambda a: f"{a['kind']},{a['dtype']}")
+
+# arguments that may be changed on their own without leaving the admissible set (used for same-seed sibling specs)
+SIB_KEYS = {
+    'get_mps_dicke_transform_matrix': ['num_more_space'], 'rand_n_sphere': ['size'], 'rand_n_ball': ['size'], 'rand_haar_state': ['tag_complex'],
+    'rand_density_matrix': ['kind'], 'rand_SpF2': ['return_kind'], 'rand_pauli': ['is_hermitian'], 'rand_hermitian_matrix': ['tag_complex', 'eig'],
+    'rand_special_orthogonal_matrix': ['batch_size', 'tag_complex'], 'rand_separable_dm': ['pure_term', 'k'], 'rand_bipartite_state': ['return_dm'],
+    'rand_reducible_matrix_subspace': ['return_unitary', 'num_matrix'], 'rand_orthonormal_matrix_basis': ['with_I', 'num_sample'], 'get_purification': ['dimR'],
+    'rand_kraus_op': ['tag_complex'], 'get_numpy_rng': ['spawn', 'n'],
+}
 
 LIGHT = [k for k, v in R.items() if not v['heavy']]
 HEAVY = [k for k, v in R.items() if v['heavy']]
